@@ -41,7 +41,7 @@ from unified_planning.model import (
     TimeInterval, SimulatedEffect, MinimizeActionCosts, MinimizeSequentialPlanLength,
     MaximizeExpressionOnFinalState, Oversubscription,
 )
-from unified_planning.model.contingent import ContingentProblem
+from unified_planning.model.contingent import ContingentProblem, SensingAction
 from unified_planning.model.htn import HierarchicalProblem, Method, Task
 from unified_planning.model.multi_agent import MultiAgentProblem, Agent
 from unified_planning.plans import ActionInstance
@@ -202,6 +202,9 @@ def find_action(p, name):
 def _effect_args(W, ed, scope):
     fl = W.expr(ed["fluent"], scope)
     val = pyconst(W, ed["value"]) if ed["value"][0] in ("int", "real", "bool", "o") else W.expr(ed["value"], scope)
+    if ed.get("xreal") and ed["value"][0] in ("int", "real"):
+        # an explicit REAL_CONSTANT node, also for an integral value (python numbers are auto-promoted to Int)
+        val = W.env.expression_manager.Real(Fraction(ed["value"][1]))
     cond = W.expr(ed["cond"], scope) if ed.get("cond") is not None else True
     fa = tuple(W.variable(n, t) for n, t in ed.get("forall", []))
     return fl, val, cond, fa
@@ -251,8 +254,13 @@ def build_action(W, ad):
         for t, ed in ad.get("effects", []):
             _add_effect(W, a, ed, scope, t)
         return a
-    a = InstantaneousAction(ad["name"], sig, W.env)
+    if ad.get("sensing"):
+        a = SensingAction(ad["name"], sig, W.env)
+    else:
+        a = InstantaneousAction(ad["name"], sig, W.env)
     scope = scope_of(a)
+    if ad.get("sensing"):
+        a.add_observed_fluents([W.expr(o, scope) for o in ad.get("observed", [])])
     for pre in ad.get("pre", []):
         a.add_precondition(W.expr(pre, scope))
     for ed in ad.get("effects", []):
@@ -343,6 +351,12 @@ def _apply(W, R, p, k, op):
         a = find_action(p, op["action"])
         _add_effect(W, a, op["effect"], scope_of(a), op.get("timing"))
         return None
+    if k == "act_add_observed":
+        a = find_action(p, op["action"])
+        if not isinstance(a, SensingAction):
+            raise BuildError("not a sensing action")
+        a.add_observed_fluent(W.expr(op["fluent"], scope_of(a)))
+        return None
     if k == "act_add_pre":
         a = find_action(p, op["action"])
         if isinstance(a, DurativeAction):
@@ -380,16 +394,16 @@ def _apply(W, R, p, k, op):
     if k == "add_metric":
         m = op["metric"]
         if m["kind"] == "plan_length":
-            p.add_quality_metric(MinimizeSequentialPlanLength())
+            p.add_quality_metric(MinimizeSequentialPlanLength(environment=W.env))
         elif m["kind"] == "max_final":
-            p.add_quality_metric(MaximizeExpressionOnFinalState(W.expr(m["e"])))
+            p.add_quality_metric(MaximizeExpressionOnFinalState(W.expr(m["e"]), environment=W.env))
         elif m["kind"] == "oversub":
-            p.add_quality_metric(Oversubscription({W.expr(g): w for g, w in m["goals"]}))
+            p.add_quality_metric(Oversubscription({W.expr(g): w for g, w in m["goals"]}, environment=W.env))
         elif m["kind"] == "costs":
             costs = {}
             for an, c in m["costs"]:
                 costs[find_action(p, an)] = W.expr(c, scope_of(find_action(p, an)))
-            p.add_quality_metric(MinimizeActionCosts(costs, default=W.em.Int(1)))
+            p.add_quality_metric(MinimizeActionCosts(costs, default=W.em.Int(1), environment=W.env))
         else:
             raise BuildError(m)
         return None
@@ -481,6 +495,8 @@ def snap_action(a):
         out["pre"] = [str(x) for x in a.preconditions]
         out["effects"] = [eff_str(e) for e in a.effects]
         out["simeff"] = None if a.simulated_effect is None else [str(f) for f in a.simulated_effect.fluents]
+        if isinstance(a, SensingAction):
+            out["observed"] = [str(f) for f in a.observed_fluents]
     else:
         out["duration"] = str(a.duration)
         out["conds"] = sorted((str(i), [str(c) for c in cl]) for i, cl in a.conditions.items())
@@ -799,6 +815,11 @@ class ModelHist(Engine):
             init_defaults.append([["bool"], ["bool", False]])
         if rw.random() < 0.3:
             init_defaults.append([["int", 0, 5], ["int", rw.randint(0, 5)]])
+        # defaults declared for the unbounded numeric types, with values that bounded fluents could not hold
+        if rw.random() < 0.25:
+            init_defaults.append([["int", None, None], ["int", rw.choice([-3, 0, 2, 9])]])
+        if rw.random() < 0.25:
+            init_defaults.append([["real", None, None], rw.choice([["real", "-1/2"], ["int", 7], ["real", "9/2"], ["int", 1]])])
         idf_faulty = None
         if rw.random() < 0.08:
             t = rw.choice([["bool"], ["int", 0, 5], ["user", "T"]])
@@ -934,6 +955,10 @@ class ModelHist(Engine):
                 params = [["p0", ["user", ro.choice([t for t, _ in world["types"]])]]] if ro.random() < 0.5 else []
                 g.params = [(n, t) for n, t in params]
                 ad = {"name": name, "params": params, "durative": durative}
+                if kind == "contingent" and ro.random() < 0.5:
+                    ad["sensing"] = True
+                    bf = [f for f in usable if f["type"][0] == "bool" and not f["params"]]
+                    ad["observed"] = [["f", f["name"]] for f in ro.sample(bf, min(len(bf), ro.randint(0, 2)))]
                 effs = []
                 for _ in range(ro.randint(0, 2)):
                     ed = self.gen_effect(ro, world, g, usable)
@@ -1000,6 +1025,10 @@ class ModelHist(Engine):
                 ops.append(op)
             elif r < 0.60 and actions:
                 an = ro.choice(sorted(actions))
+                bf = [f for f in usable if f["type"][0] == "bool" and not f["params"]]
+                if actions[an].get("sensing") and bf and ro.random() < 0.4:
+                    ops.append({"op": "act_add_observed", "action": an, "fluent": ["f", ro.choice(bf)["name"]]})
+                    continue
                 g.params = [(n, t) for n, t in actions[an]["params"]]
                 ops.append({"op": "act_add_pre", "action": an, "pre": g.bool_expr(1)})
                 g.params = []
@@ -1435,11 +1464,20 @@ class ModelHist(Engine):
                     vals = values_of(fd["type"], world["objects"], dict(world["types"]))
                     if vals:
                         return {"ins": "simeff", "simeff": {"fluents": [["f", fd["name"]]], "values": [ro.choice(vals)]}}
+            prev = [x["effect"] for x in multiset if x["ins"] == "effect" and x["effect"]["value"][0] in ("int", "real")
+                    and x["effect"].get("kind", "assign") == "assign"]
+            if prev and ro.random() < 0.2:
+                # the same assignment again, written with the other kind of numeric constant
+                pe = ro.choice(prev)
+                ed = dict(pe, cond=None if ro.random() < 0.8 else pe.get("cond"), xreal=not pe.get("xreal", False))
+                return {"ins": "effect", "effect": ed}
             ed = self.gen_effect(ro, world, g, focus)
             if ed is None:
                 return None
             if ro.random() < 0.6:
                 ed["cond"] = None
+            if ed["value"][0] in ("int", "real") and ro.random() < 0.15:
+                ed["xreal"] = True
             return {"ins": "effect", "effect": ed}
 
         multiset = []
